@@ -139,6 +139,7 @@ type World struct {
 	fatal    bool
 
 	earlyTimers bool
+	dueTimers   bool // a timer whose deadline is already reached may fire while tasks are still enabled (costs T, time does not move)
 	fine        bool // every instrumented memory access is a scheduling point
 	trace       bool
 	traceLog    []string
@@ -166,6 +167,7 @@ type Config struct {
 	Horizon     int64 // virtual ns; timers beyond never fire
 	StepCap     int
 	EarlyTimers bool
+	DueTimers   bool
 	Fine        bool
 	Trace       bool
 	Race        bool
@@ -191,6 +193,7 @@ func Execute(cfg Config, body func()) Outcome {
 		horizon:     cfg.Horizon,
 		stepCap:     cfg.StepCap,
 		earlyTimers: cfg.EarlyTimers,
+		dueTimers:   cfg.DueTimers,
 		fine:        cfg.Fine,
 		trace:       cfg.Trace,
 		fin:         make(chan struct{}),
@@ -452,7 +455,10 @@ func (w *World) pick() *Task {
 		}
 		w.enBuf = en[:0]
 		if len(en) > 0 {
-			timerAlt := w.earlyTimers && w.nextTimer() != nil
+			timerAlt := false
+			if nt := w.nextTimer(); nt != nil {
+				timerAlt = w.earlyTimers || w.dueTimers && nt.when <= w.now
+			}
 			n := len(en)
 			if timerAlt {
 				n++
